@@ -98,6 +98,10 @@ pub enum Timeout {
     Above { extra: u32, via_caps: bool },
     /// far below: the child lingers >= max(10 x ms, 3 s) at the end of its plan
     Below { ms: u16, via_caps: bool },
+    /// moderately below: the child ends `child_ms` (>= timeout + 400 ms, < 2 x timeout) after its
+    /// start, so it exits soon after the deadline (a poll loop that sleeps past the deadline sees
+    /// an exited child instead of a timeout)
+    Near { ms: u16, child_ms: u16 },
 }
 
 #[derive(Debug, Clone, PartialEq)]
@@ -158,6 +162,7 @@ impl Case {
             Timeout::Unset => json!("unset"),
             Timeout::Above { extra, via_caps } => json!({"above_extra": extra, "via_caps": via_caps}),
             Timeout::Below { ms, via_caps } => json!({"below_ms": ms, "via_caps": via_caps}),
+            Timeout::Near { ms, child_ms } => json!({"near_ms": ms, "child_ms": child_ms}),
         };
         let exit = match self.exit {
             Exit::Code(c) => json!({"code": c}),
@@ -178,6 +183,8 @@ impl Case {
         let t = j.get("timeout")?;
         let timeout = if let Some(x) = t.get("above_extra") {
             Timeout::Above { extra: x.as_u64()? as u32, via_caps: t.get("via_caps")?.as_bool()? }
+        } else if let Some(x) = t.get("near_ms") {
+            Timeout::Near { ms: x.as_u64()? as u16, child_ms: t.get("child_ms")?.as_u64()? as u16 }
         } else if let Some(x) = t.get("below_ms") {
             Timeout::Below { ms: x.as_u64()? as u16, via_caps: t.get("via_caps")?.as_bool()? }
         } else {
@@ -353,7 +360,7 @@ fn build(case: &Case, helper: &str) -> Model {
     if !bad.is_empty() {
         errors.push((E_UTF8, bad));
     }
-    let below = matches!(case.timeout, Timeout::Below { .. });
+    let below = matches!(case.timeout, Timeout::Below { .. } | Timeout::Near { .. });
     if below {
         errors.push((E_TIMEOUT, vec![]));
     }
@@ -418,6 +425,10 @@ fn build(case: &Case, helper: &str) -> Model {
         plan.push_str(&format!("s {l}\n"));
         sleeps += l;
     }
+    if let Timeout::Near { child_ms, .. } = case.timeout {
+        plan.push_str(&format!("s {child_ms}\n"));
+        sleeps += u64::from(child_ms);
+    }
     match case.exit {
         Exit::Code(c) => plan.push_str(&format!("x {c}\n")),
         Exit::Signal(i) => plan.push_str(&format!("k {}\n", SIGNALS[i as usize % SIGNALS.len()])),
@@ -434,6 +445,7 @@ fn build(case: &Case, helper: &str) -> Model {
             (Some(t.min(3_600_000) as u32), via_caps)
         }
         Timeout::Below { ms, via_caps } => (Some(u32::from(ms.max(1))), via_caps),
+        Timeout::Near { ms, .. } => (Some(u32::from(ms.max(1))), false),
     };
     if let (Some(t), true) = (timeout_ms, via_caps) {
         caps.default_timeout_ms = t;
@@ -1178,6 +1190,33 @@ impl Check for C16 {
         let t = ctx.tier;
         prop_stage(ctx, "emit", t.pick(200, 4000), case_strategy());
         prop_stage(ctx, "fast-exit", t.pick(60, 1200), fast_exit_strategy());
+        // near-timeout cases: the child outlives its deadline by 500 ms or more, but by less than
+        // the deadline itself. One (timeout, child) pair per shard; a failure must show twice.
+        const NEAR: [(u16, u16); 6] = [(650, 1200), (700, 1250), (1300, 2400), (330, 850), (170, 700), (90, 600)];
+        let (ms, child_ms) = NEAR[ctx.shard as usize % NEAR.len()];
+        let case = Case {
+            out_pol: Pol::Capture,
+            err_pol: Pol::Null,
+            pre: None,
+            err_first: false,
+            cap: 1000,
+            poll: [1, 5, 10, 50][ctx.shard as usize % 4],
+            out: StreamPlan { len: Len::Abs(5), kind: 0, seed: 1, invalid: None, chunks: vec![] },
+            err: StreamPlan { len: Len::Abs(0), kind: 0, seed: 2, invalid: None, chunks: vec![] },
+            order: vec![],
+            delays: vec![],
+            close_out: None,
+            linger: 0,
+            exit: Exit::Code(0),
+            big_pipe: false,
+            timeout: Timeout::Near { ms, child_ms },
+            stdin: 0,
+            hang: false,
+        };
+        ctx.class("near-timeout case (child ends 500..1100 ms after the deadline)");
+        let first = check_case(ctx, &case);
+        let outcome = if matches!(first, Outcome::Fail(_)) { check_case(ctx, &case) } else { first };
+        ctx.handle("near-timeout", outcome);
     }
 
     fn replay(&self, ctx: &mut ShardCtx, _stage: &str, input: &J) -> Outcome {
